@@ -187,6 +187,26 @@ def scenarios(tier, rng):
             if i % 30 == 29:
                 s.chk()
         s.chk(); out.append(s)
+    # 4d. names whose characters 3..6 spell the hexadecimal form of their own generator checksum: their hash form "XXHHHH~N" coincides
+    #     with the 6-character form "PREFIX~N"; created after four (and more) entries with that prefix exist
+    selfhash = []
+    for suf in ("_front", "_back", "_scan", "_left"):
+        for hv in range(65536):
+            n = "IM%04X%s.jpg" % (hv, suf)
+            if sng_checksum(n) == hv:
+                selfhash.append(n)
+        if len(selfhash) >= 3 and q:
+            break
+    for conf, sub in ((ROOT16, False), (FAT32, True)):
+        s = Scn("self-hash", conf, sub)
+        for n in selfhash:
+            pre = n[:6]
+            for k in range(6):
+                s.c("%s_%s%d.jpg" % (pre, "abcdef"[k], k))
+            s.c(n)
+            s.r("%s_b1.jpg" % pre)
+            s.c(n[:-4] + " again.jpg")
+        s.chk(); out.append(s)
     # 5. a big directory (thorough): thousands of entries sharing one 6-character prefix and few checksums
     if not q:
         s = Scn("big", ROOT16BIG, False)
